@@ -305,6 +305,34 @@ NEUTRAL = [
         let victim =
             self.lru.peek_least_recent(lru::Region::Probation).unwrap();
 """)]),
+    dict(id="N32-trim-loop-as-a-bounded-for", file=ST + "tiny_lfu/policy.rs",
+         edits=[("""        let mut to_examine = self.lru.pinned_len();
+
+        while to_examine > 0 && self.lru.pinned_len() > 0 {
+            to_examine -= 1;
+""", """        for _ in 0..self.lru.pinned_len() {
+            if self.lru.pinned_len() == 0 {
+                break;
+            }
+""")]),
+    dict(id="N33-path-hash-through-path-iter", file="crates/stable_hash/src/lib.rs",
+         edits=[("""        state.write_length_prefix(self.components().count());
+
+        for component in self.components() {
+            component.as_os_str().stable_hash(state);
+        }""", """        state.write_length_prefix(self.iter().count());
+
+        for component in self.iter() {
+            component.stable_hash(state);
+        }""")]),
+    dict(id="N34-snapshot-replay-halves-in-the-other-order", file=ST + "key_of_set_map/cache.rs",
+         edits=[("""                Operation::Insert(v) => {
+                    removed.remove(v);
+                    added.insert(v.clone());
+                }""", """                Operation::Insert(v) => {
+                    added.insert(v.clone());
+                    removed.remove(v);
+                }""")]),
 ]
 
 
